@@ -3,7 +3,7 @@ import os, json
 import shapes, wasmcases, nslgen, vmcases, ircoq
 from common import parse_coq_values, coq_list
 
-STATIC = ["Spec/Wasm.v", "Proofs/WasmProofs.v", "Spec/RefSem.v"]
+STATIC = ["Spec/Wasm.v", "Proofs/WasmProofs.v", "Model/WasmGen.v", "Proofs/WasmGenProofs.v", "Proofs/WasmSimProofs.v", "Spec/RefSem.v"]
 
 HEADER = wasmcases.HEADER.replace("From NSL Require Import Spec.Wasm.", "From NSL Require Import Base.Types Base.Syntax Model.PyNum Model.PyTree Spec.Wasm Spec.RefSem Harness.RunLib.") + """
 Definition fuel : nat := Z.to_nat 5000.
@@ -85,6 +85,31 @@ def run(ctx):
             codes.extend([None] * cnt)
         else:
             codes.extend(vals[0])
+    # the generator model must emit exactly the module the compiler emitted (the theorems are about the model)
+    gexprs, gdefs = [], []
+    for k, (j, r) in enumerate(emitted):
+        prog = ircoq.program({"functions": r["ir"]["functions"], "globals": r["ir"]["globals"]})
+        gdefs.append("Definition GP_%d : program := %s.\n" % (k, prog))
+        gexprs.append("gen_chk GP_%d %s + 1000 * ring_count GP_%d" % (k, wasmcases.coq_bytes(r["hex"]), k))
+    GH = wasmcases.HEADER.replace("From NSL Require Import Spec.Wasm.", "From NSL Require Import Model.PyNum Model.IR Spec.Wasm Harness.WasmLib.")
+    gfiles = []
+    for i in range(0, len(gexprs), 40):
+        f = os.path.join(ctx.dyn, "cases_C06g_%d.v" % (i // 40))
+        open(f, "w").write(GH + "".join(gdefs[i:i + 40]) + "Definition cases : list Z := [\n  " + ";\n  ".join(gexprs[i:i + 40]) + "].\nEval vm_compute in cases.\n")
+        gfiles.append(f)
+    gouts = ctx.eval_cases(gfiles, timeout=600)
+    gcodes = []
+    for f in gfiles:
+        ok, out, err = gouts[f]
+        vals = parse_coq_values(out) if ok else []
+        if not ok or not vals or not isinstance(vals[0], list):
+            ctx.broken.append("correspondence: %s did not evaluate: %s" % (os.path.basename(f), err[-300:]))
+        else:
+            gcodes.extend(vals[0])
+    gen_differs = [c for c in gcodes if c % 1000 != 0]
+    ring_functions = sum(c // 1000 for c in gcodes)
+    if gen_differs:
+        ctx.broken.append("correspondence: the generator model (Model.WasmGen) differs from the compiler on %d emitted module(s) (codes %s)" % (len(gen_differs), sorted(set(c % 1000 for c in gen_differs))))
     for j, r in zip(jobs, res):
         k = "%s:%s" % (j["kind"], "emitted" if r["accept"] else ("refused" if r.get("front_end_ok") else "rejected-by-front-end"))
         dist[k] = dist.get(k, 0) + 1
@@ -100,7 +125,8 @@ def run(ctx):
                        "(exact), V8 vs reference result and VM vs V8 where the reference semantics defines a result (ints as 32-bit values, floats within 2^-18 relative). An exported "
                        "function missing from the binary, or a construct dropped silently, shows as a missing export or a wrong value. Non-trivial = calls with a defined reference result.")
     ctx.cov["samples"] = [{"kind": m[0]["kind"], "source": m[0]["src"][:300], "call": m[2]["fn"], "args": m[2]["args"], "v8": m[3], "vm": m[4]} for m in meta[:: max(1, len(meta) // 4)][:4]]
-    ctx.extra["input_distribution"] = dict(sorted(dist.items()), calls=len(codes), reference_undefined=undefined, missing_exports=len(silently))
+    ctx.extra["input_distribution"] = dict(sorted(dist.items()), calls=len(codes), reference_undefined=undefined, missing_exports=len(silently),
+                                           generator_model_compared=len(gcodes), functions_in_ring_fragment=ring_functions)
     ctx.extra["disagreements_checked"] = len(codes)
     if silently:
         j, r, c = silently[0]
